@@ -61,7 +61,7 @@ def gen_plan(seed, tier):
   n = r.randint(8, 60 if tier == "thorough" else 30)
   for i in range(n):
     k = r.wpick([(8, "frame"), (6, "po_buf"), (3, "fm_buf"), (1, "set_config"),
-                 (1, "po_data")])
+                 (1, "po_data"), (1, "port_mod")])
     if k == "frame":
       fs, port = r.pick(frames)
       steps.append({"op": "frame", "port": port, "f": fs,
@@ -83,6 +83,15 @@ def gen_plan(seed, tier):
                     "idle": 0, "hard": 0, "flags": 0,
                     "buffer": r.wpick([(5, "last"), (2, "first"),
                                        (2, "used"), (1, 77)])})
+    elif k == "port_mod":
+      # a port that must not cause packet-ins (or is switched back): its
+      # misses must not touch the pool either
+      steps.append({"op": "port_mod", "port": r.randint(1, nports),
+                    "hw_ok": True,
+                    "config": r.pick([W.PC_NO_PACKET_IN, W.PC_NO_PACKET_IN, 0,
+                                      W.PC_NO_RECV]),
+                    "mask": r.pick([W.PC_NO_PACKET_IN, W.PC_NO_PACKET_IN,
+                                    W.PC_NO_PACKET_IN | W.PC_NO_RECV])})
     elif k == "set_config":
       steps.append({"op": "set_config", "flags": 0,
                     "msl": r.pick([0, 14, 64, 128, 1500, 0xffff])})
